@@ -135,3 +135,43 @@ pub proof fn lemma_names_card(s: Set<String>, q: nat)
         lemma_names_card(s2, (q - 1) as nat);
     }
 }
+
+// ---- from a preprocessed tree to the preconditions of the evaluator
+// the result of preprocessing has depth names
+pub proof fn lemma_rename_canonical(t: STree, m: IMap<Seq<char>, Seq<char>>, d: nat)
+    requires well_scoped(t, m.dom()), vals_le(m, d)
+    ensures canonical_names(rename_spec(t, m, d), d)
+    decreases t
+{
+    match t {
+        STree::Term(SAtom::Var(x)) => { assert(m.contains_key(x)); },
+        STree::Term(_) => {},
+        STree::Un(_, c) => { lemma_rename_canonical(*c, m, d); },
+        STree::Bin(_, a, b) => { lemma_rename_canonical(*a, m, d); lemma_rename_canonical(*b, m, d); },
+        STree::Hyb(op, x, dd, c) => {
+            if op is Jump { assert(m.contains_key(x)); lemma_rename_canonical(*c, m, d); }
+            else {
+                let nm = xs(d + 1);
+                let m2 = m.insert(x, nm);
+                assert(vals_le(m2, d + 1)) by {
+                    assert forall|y: Seq<char>| #[trigger] m2.contains_key(y) implies exists|i: nat| 1 <= i <= d + 1 && m2[y] == xs(i) by {
+                        if y == x { assert(m2[y] == xs((d + 1) as nat)); } else {
+                            assert(m.contains_key(y));
+                            let i = choose|i: nat| 1 <= i <= d && m[y] == xs(i);
+                            assert(1 <= i <= d + 1 && m2[y] == xs(i));
+                        }
+                    }
+                }
+                assert(m2.dom() =~= m.dom().insert(x));
+                lemma_rename_canonical(*c, m2, d + 1);
+            }
+        },
+    }
+}
+pub proof fn lemma_slot_xs(i: nat)
+    requires i >= 1
+    ensures encode_utf8(xs(i)).len() == i, slot_name(xs(i)) == i - 1
+{
+    assert(is_ascii_chars(xs(i)));
+    is_ascii_chars_encode_utf8(xs(i));
+}
